@@ -10,12 +10,15 @@ META = {
 }
 
 MANIFEST = {
-    'text': 'Solver-decided kernels of UDF tag integrity on the real functions (bit-vector symbolic execution), plus bounded symbolic execution of '
-            'the real UDF layout code on skeleton histories (tag locations, partition/integrity counters, identifier packing) - see evidence for the '
-            'obligations actually discharged.',
-    'note': 'Bounded: one CRC step for all states/bytes; whole messages <= 2 bytes; 16-byte tag; skeleton family for layout. An independent '
-            'ECMA-167 reader over written images is only partly built (see DESIGN C10).',
-    'technique': 'bit-vector symbolic execution of real CRC/checksum kernels (z3, cross-checked with z3 4.8.12 and cvc5) + CrossHair on layout',
+    'text': 'Solver-decided kernels of UDF tag integrity on the real functions (bit-vector symbolic execution); bounded symbolic execution of the real '
+            'write_fp on skeleton histories with symbolic file lengths, decoded by an independent ECMA-167 reader (recognition sequence, anchors at 256 and '
+            'the symbolic last sector, mirrored descriptor sequences, partition/integrity counters, file entries, identifier tags, parent entries, directory '
+            'link counts, symlink bodies); the identifier-packing lemma (add and remove); symlink path components over all code points.',
+    'note': 'Bounded: one CRC step for all states/bytes, whole messages <= 2 bytes, 16-byte tag; skeleton family sk1/2/3/7/10/11 x UDF configurations x '
+            'lengths in [0, 0x3ffff800]; symlink targets of <= 4 (quick) / 5 (thorough) characters. Tag checksum/CRC VALUES are verified for real on the '
+            'declared concrete samples and replays only (constant under the solver). One recorded finding (File Link Count of hard-linked files).',
+    'technique': 'bit-vector symbolic execution of real CRC/checksum kernels (z3, cross-checked with z3 4.8.12 and cvc5) + CrossHair symbolic execution of '
+                 'the real UDF writer decoded by an independent reference reader',
 }
 
 
